@@ -17,6 +17,9 @@ pub struct ShapeEntry {
     /// a FromDeriveInput receiver whose `data` member gathers a FromVariant receiver with
     /// `supports(mask over VWORDS)` over every variant of the input
     pub gathered: bool,
+    /// the receiver also converts the body (`data: ast::Data<..>`): a union fails there whatever
+    /// the declared set says
+    pub converts_body: bool,
     pub run: Runner,
 }
 
@@ -364,7 +367,8 @@ pub fn main(entries: Vec<ShapeEntry>) {
                     }
                 }
             } else if let Some((_, b)) = bs.iter().find(|(s, _)| s == src) {
-                judge("FromDeriveInput", mask, src, &expected(mask, b), &obs, &mut t);
+                let want = if e.converts_body && matches!(b, Body::Union) { Verdict::ErrAny } else { expected(mask, b) };
+                judge("FromDeriveInput", mask, src, &want, &obs, &mut t);
             }
         }
         for v in &t.violations {
@@ -425,7 +429,7 @@ pub fn main(entries: Vec<ShapeEntry>) {
                 return t;
             }
             for (src, body) in &bs {
-                let want = expected(e.mask, body);
+                let want = if e.converts_body && matches!(body, Body::Union) { Verdict::ErrAny } else { expected(e.mask, body) };
                 let obs = (e.run)(src);
                 judge("FromDeriveInput", e.mask, src, &want, &obs, &mut t);
                 if let Body::Struct(s) = body {
